@@ -554,6 +554,10 @@ pub fn corner_files() -> Vec<(Cfg, Vec<Entry>)> {
     for codec in 1..5u8 {
         v.push((c(codec, 1024, 8, if codec % 2 == 0 { 0 } else { 2 }), vec![e(b"\x00", b"")]));
     }
+    // the empty key first, with a value that reaches the block size by itself (beyond it, and
+    // landing exactly on it): a block whose only key is the empty key must be cut like any other
+    v.push((c(0, 1024, 8, 0), vec![e(b"", &vec![b'z'; 2000]), e(b"a", b"x"), e(b"b", b"y")]));
+    v.push((c(0, 1024, 8, 1), vec![e(b"", &vec![b'z'; 1009]), e(b"a", b"x"), e(b"b", b"y")]));
     v
 }
 
